@@ -886,6 +886,11 @@ void matrixSslDeleteSession(ssl_t *ssl)
 # endif
 #endif
 
+#if defined(USE_TLS_1_3) && defined(USE_IDENTITY_CERTIFICATES)
+    /* CertificateVerify signature of a flight that was never completed */
+    psFree(ssl->sec.tls13CvSig, ssl->hsPool);
+    ssl->sec.tls13CvSig = NULL;
+#endif
 #if defined(USE_IDENTITY_CERTIFICATES)
     psFree(ssl->sec.keySelect.caNames, ssl->sPool);
     psFree(ssl->sec.keySelect.caNameLens, ssl->sPool);
